@@ -205,6 +205,28 @@ theorem C18_kinds_as_modelled :
     simp only [Bool.false_eq_true, ↓reduceIte, true_iff]
     exact fun h' => h (key.mpr h')
 
+/-- **No container steals a borrowed reference.**  `PyTuple_SET_ITEM` and
+`PyList_SET_ITEM` take over the caller's reference: at every such statement of
+`ctraits.c` the stored expression is a call returning a new reference, a
+variable with `Py_INCREF` as the adjacent statement, or a variable last
+assigned from a call returning a new reference - never the result of a
+borrowing accessor (`PyTuple_GET_ITEM`, `PyList_GET_ITEM`, `PyDict_GetItem`, …).
+(Translated from the working tree; dropping the `Py_INCREF` of the loop that
+copies the leading items in `validate_trait_tuple_check` breaks it.) -/
+theorem C18_stolen_references_owned :
+    CTables.stolenReferences ≠ [] ∧
+    ∀ r ∈ CTables.stolenReferences, r.2.2 = "call" ∨ r.2.2 = "incref" ∨ r.2.2 = "owned" := by
+  decide
+
+/-- **A dying object is invisible to the collector.**  Every `tp_dealloc` of
+the file (both types are GC types) starts with `PyObject_GC_UnTrack`, so a
+collection triggered from a finalizer while the fields are being cleared never
+sees the object with reference count zero. -/
+theorem C18_dealloc_untracks_first :
+    CTables.deallocFirstStatement.length = 2 ∧
+    ∀ r ∈ CTables.deallocFirstStatement, r.2 = "PyObject_GC_UnTrack" := by
+  decide
+
 /-- **A validated property is complete.**  `setattr_validate_property` calls
 `traitd->validate` and `traitd->post_setattr` (which holds the property
 setter) without a NULL test: for every constructible trait whose `setattr` is
@@ -393,6 +415,33 @@ example :
     let E : Env := { validate := fun _ x => .ok x, dflt := fun _ _ => .ok 9, post := fun _ _ => .ok (),
                      notify := fun _ _ => .ok (), hashOk := fun _ => false }
     (step E {} {} (.set "x" 7 5)).1 = some hashExc ∧ refs (step E {} {} (.set "x" 7 5)).2 7 = 0 := by
+  decide
+
+/-- **A rebuilt tuple owns its items - exactly.**  For the element-wise tuple
+validator (`validate_trait_tuple_check`), every tuple, every element validator
+at every position (accepting, converting to any object, raising) and every
+object `id`: counting the new reference each element validator returns and
+every `Py_INCREF` / `Py_DECREF` of the function (the release of a partly built
+tuple on failure included), the net change of `id`'s reference count is the
+number of slots of the NEW tuple that hold it - and zero when the value tuple
+itself is returned or validation fails.  (The `Py_INCREF` of the loop copying
+the leading items is what makes the first case true.) -/
+theorem C18_tuple_rebuild_exact (ev : Nat → Id → Except Exc Id) (value : List Id) (id : Id) :
+    match (tupleCheck ev value).result with
+    | some (some l) => net (tupleCheck ev value).evs id = (l.count id : Int)
+    | _ => net (tupleCheck ev value).evs id = 0 :=
+  tupleLoop_exact ev value id value 0 none [] (by simp [net])
+
+/-- Non-vacuity: `(v1, v2, v3)` with a converting validator at the LAST
+position: the new tuple is `(v1, v2, v9)` and `v1` gained exactly one
+reference; with a raising validator after a conversion everything is given back. -/
+example :
+    let conv : Nat → Id → Except Exc Id := fun i x => if i = 2 then .ok 9 else .ok x
+    let fail : Nat → Id → Except Exc Id := fun i x => if i = 1 then .ok 9 else if i = 2 then .error .traitError else .ok x
+    (tupleCheck conv [1, 2, 3]).result = some (some [1, 2, 9]) ∧ net (tupleCheck conv [1, 2, 3]).evs 1 = 1 ∧
+      net (tupleCheck conv [1, 2, 3]).evs 3 = 0 ∧
+      (tupleCheck fail [1, 2, 3]).result = none ∧ net (tupleCheck fail [1, 2, 3]).evs 1 = 0 ∧
+      net (tupleCheck fail [1, 2, 3]).evs 9 = 0 := by
   decide
 
 /-! Non-vacuity of the ledger theorems: a trait with `post_setattr` and a
